@@ -429,6 +429,44 @@ impl V for desert::DeduplicatedString {
     }
 }
 
+/// a bare `write_var_u32` / `read_var_u32` (what hand-written codecs such as the golden test's `StackTraceElement`
+/// use for counters); model type `varu32`
+#[derive(Debug, Clone, Copy, PartialEq, Eq, Hash, PartialOrd, Ord)]
+pub struct VarU32(pub u32);
+
+impl BinarySerializer for VarU32 {
+    fn serialize<O: desert::BinaryOutput>(&self, context: &mut desert::SerializationContext<O>) -> desert::Result<()> {
+        use desert::BinaryOutput;
+        context.write_var_u32(self.0);
+        Ok(())
+    }
+}
+
+impl BinaryDeserializer for VarU32 {
+    fn deserialize(context: &mut desert::DeserializationContext<'_>) -> desert::Result<Self> {
+        use desert::BinaryInput;
+        Ok(VarU32(context.read_var_u32()?))
+    }
+}
+
+impl V for VarU32 {
+    fn ty() -> Option<String> {
+        Some("varu32".into())
+    }
+    fn gen(r: &mut Rng, d: u32) -> Self {
+        VarU32(u32::gen(r, d))
+    }
+    fn show(&self) -> String {
+        format!("(i {})", self.0)
+    }
+    fn canon_sexp(x: &Sexp) -> Option<String> {
+        int_canon(x)
+    }
+    fn rust_name() -> String {
+        "VarU32".into()
+    }
+}
+
 /// `DeduplicatedString` has no Debug/Clone/Eq; the harness uses this transparent wrapper in
 /// generated declarations and containers (same codec, by delegation)
 #[derive(Debug, Clone, PartialEq, Eq, Hash, PartialOrd, Ord)]
